@@ -21,6 +21,9 @@ class C14(EgSpec):
         {'name': 'default', 'component': 'eg14', 'config': 'default', 'quick': 300, 'thorough': 8000},
         {'name': 'checks', 'component': 'eg14', 'config': 'checks', 'quick': 90, 'thorough': 2000},
         {'name': 'capdepth', 'component': 'eg14', 'config': 'default', 'quick': 60, 'thorough': 1500, 'gen_extra': ['--an', '3']},
+        # NOTHING observed between the operations (observation canonicalises and compresses union-find paths): at the end the datum read through
+        # every old handle id must be the datum of the class's leader ("equal classes share one datum"), then the fixpoint predicate as first reader
+        {'name': 'lazy', 'component': 'eg14', 'config': 'default', 'quick': 200, 'thorough': 5000, 'gen_extra': ['lazy']},
     ]
 
     def evaluate(self, stream, case, impl_obs, model_obs, ctx):
@@ -33,7 +36,14 @@ class C14(EgSpec):
                 out.append(('violation', 'panic ' + core.sx_show(st[-1]), 'analysis %s: operation %d panicked at %s; asserted so far: {%s}' % (AN[an], k, core.sx_show(st[-1]), '; '.join(describe_history(pc))), {'analysis': AN[an]}))
                 return out
         fx = field(pi, 'fix')
+        lazy = stream['name'] == 'lazy'
+        if lazy and fx and len(fx) > 1 and fx[1] != 'ok':
+            out.append(('violation', 'stale-datum', 'analysis %s: equal classes do not share one datum: read through an old handle id (first lookup after the history) the datum differs from the leader\'s: %s (handle, through the old id, through the leader); asserted: {%s}'
+                        % (AN[an], core.sx_show(fx[1]), '; '.join(describe_history(pc))), {'analysis': AN[an]}))
+            return out
         for k, f in enumerate(fx[1:] if fx else []):
+            if lazy and k == 0:
+                continue
             if f != 'ok':
                 out.append(('violation', 'not-a-fixpoint', 'analysis %s: after operation %d the datum of a class differs from the join of make over its e-nodes: %s (class stored recomputed); asserted: {%s}'
                             % (AN[an], k, core.sx_show(f), '; '.join(describe_history(pc))), {'analysis': AN[an]}))
@@ -41,6 +51,11 @@ class C14(EgSpec):
         b = field(pi, 'best')
         if b is not None and len(b) > 1 and b[1] not in ('ok', 'na'):
             out.append(('violation', 'min-size-not-best-cost', 'the min-size datum of a handle differs from the extractor\'s best cost: ' + core.sx_show(b), {}))
+            return out
+        if lazy:
+            pm = core.sx_parse(model_obs) if model_obs is not None else None
+            if pm is not None and isinstance(pm, list) and len(pm) > 1 and steps and len(steps) > 1 and core.sx_show(steps[-1]) != core.sx_show(pm[-1]):
+                out.append(('differs', 'model-final', 'analysis %s: the observation at the end of the unobserved history differs from the analysis model\'s last step' % AN[an], {'model': core.sx_show(pm[-1])[:300]}))
             return out
         if model_obs is not None and steps is not None and core.sx_show(steps) != model_obs.strip():
             out.append(('differs', 'model-steps', 'analysis %s: per-operation data / equalities differ from the analysis model; the fixpoint predicate holds on the implementation' % AN[an], {'model': model_obs[:300]}))
